@@ -37,8 +37,10 @@ def probe_mapping_batch_refusals(ctx: common.Ctx):
         text = r.choice(texts)
         f = gen_docs.parse_ok(text, True)
         holders = [(p, m) for p, m in treewalk.walk(f) if hasattr(m, 'meta') and hasattr(m, 'raw_meta') and p != 'root']
+        meta_values = {id(it.raw_value) for _, h in holders for it in h.raw_meta}
+        # (a key's own current value assigned back to it is a no-op, not a reuse: such nodes are not used as "attached")
         attached = [m for _, m in treewalk.walk(f) if isinstance(m, (models.Account, models.Date, models.NumberExpr))
-                    and m.token_store is f.token_store]
+                    and m.token_store is f.token_store and id(m) not in meta_values]
         p, m = r.choice(holders)
         raw = r.random() < 0.35
         plain = [Decimal(7), 'str', None, True, datetime.date(2001, 2, 3)]
